@@ -214,7 +214,12 @@ func (g *gen) any(d int) *Node {
 		return V(allVars[g.r.Intn(len(allVars))])
 	default:
 		if d > 0 {
-			switch g.r.Intn(6) {
+			switch g.r.Intn(8) {
+			case 6:
+				// any operator on any pair of operand kinds (mostly ill-typed: the error-ness is judged)
+				return &Node{K: KBin, S: g.pick("+", "-", "*", "/", "%", "**", "<", "<=", ">", ">=", "&", "|", "??"), Kids: []*Node{g.any(d - 1), g.any(d - 1)}}
+			case 7:
+				return &Node{K: KUnary, S: g.pick("-", "+"), Kids: []*Node{g.any(d - 1)}}
 			case 0:
 				return &Node{K: KOr, Kids: []*Node{g.any(d - 1), g.any(d - 1)}}
 			case 1:
@@ -250,6 +255,29 @@ func (g *gen) any(d int) *Node {
 }
 
 func (g *gen) stmt(d int) *Node {
+	if g.inLoop && g.r.Intn(5) == 0 {
+		// break/continue the way they are really used: inside (possibly nested) if-blocks
+		inner := &Node{K: KIf, Kids: []*Node{g.any(1)}, Body: []*Node{{K: g.pickK(KBreak, KContinue)}}}
+		if g.r.Intn(2) == 0 {
+			inner = &Node{K: KIf, Kids: []*Node{g.any(1)}, Body: []*Node{g.any(0), inner}}
+		}
+		return inner
+	}
+	if d > 0 && !g.inLoop && g.r.Intn(40) == 0 {
+		// a longer loop (up to 30 iterations) whose body leaves nested blocks by continue/break
+		cnt := g.pick("c1", "c2")
+		lim := int64(21 + g.r.Intn(10))
+		k := g.pickK(KBreak, KContinue)
+		lvl2 := &Node{K: KIf, Kids: []*Node{{K: KBin, S: ">", Kids: []*Node{V(cnt), I(int64(g.r.Intn(3)))}}}, Body: []*Node{{K: k}}}
+		lvl1 := &Node{K: KIf, Kids: []*Node{{K: KBin, S: "<", Kids: []*Node{V(cnt), I(lim - 1 - int64(g.r.Intn(3)))}}}, Body: []*Node{lvl2}}
+		if k == KBreak {
+			// break only near the end so that most iterations take the inner continue path of a sibling
+			lvl2.Body = []*Node{{K: KContinue}}
+			lvl1.Else = []*Node{{K: KBreak}}
+		}
+		body := []*Node{{K: KAssign, S: cnt, Kids: []*Node{{K: KBin, S: "+", Kids: []*Node{V(cnt), I(1)}}}}, lvl1, {K: KAssign, S: "t1", Kids: []*Node{V(cnt)}}}
+		return &Node{K: KWhile, Kids: []*Node{{K: KBin, S: "<", Kids: []*Node{V(cnt), I(lim)}}}, Body: body}
+	}
 	switch g.r.Intn(14) {
 	case 0, 1, 2, 3:
 		return &Node{K: KAssign, S: g.pick("vi", "wi", "xi", "t1", "t2", "va", "vs"), Kids: []*Node{g.any(d)}}
